@@ -754,6 +754,13 @@ func (env *Env) call(x *ast.CallExpr) (tv, error) {
 			return tv{}, err
 		}
 		return tv{t: app(SInt, "div", a.t, b.t)}, nil
+	case "acquired":
+		l, err := env.lockLoc(x.Args[0])
+		if err != nil {
+			return tv{}, err
+		}
+		ac := "LA:" + strings.TrimPrefix(ex.lockComp(l), "LK:")
+		return tv{t: sel(ex.get(env.st, ac, arraySort(SInt, SInt)), l.ref)}, nil
 	case "held", "heldW", "unheld", "lockstate":
 		// held(x.RWMutex): lock state of the mutex at that location
 		l, err := env.lockLoc(x.Args[0])
@@ -777,7 +784,7 @@ func (env *Env) call(x *ast.CallExpr) (tv, error) {
 		if err != nil {
 			return tv{}, err
 		}
-		c := ex.get(env.st, "G:calls", arraySort(SInt, SInt))
+		c := ex.get(env.st, callsComp(v.typ), arraySort(SInt, SInt))
 		return tv{t: sel(c, v.t)}, nil
 	case "fresh":
 		v, err := argv(0)
